@@ -2,6 +2,7 @@ import AcraModel.AuditLog.ChainLemmas
 import AcraModel.AuditLog.ChainAlter
 import AcraModel.AuditLog.ParseLemmas
 import AcraModel.AuditLog.JsonRoundTrip
+import AcraModel.AuditLog.JsonNested
 import AcraModel.Crypto.Box
 /-!
 # C20 — the audit-log integrity chain verifies when intact and fails when altered
@@ -337,7 +338,10 @@ encoder and decoder are modelled and `decodeTop_marshal` is proved.
 
 `_partial`: values that are arrays or objects (slices, maps, structs passed as fields) are not covered by
 the PROOF of `decodeTop (marshal m) = m` (for them the statement is `render_parse_json_of_roundtrip`, with
-that equation as hypothesis; it is checked by correspondence on generated nested values). -/
+that equation as hypothesis; it is checked by correspondence on generated nested values).
+
+Superseded by `render_parse_json` below, which proves the equation for nested values too (`AuditLog/JsonNested.lean`);
+kept because `honest_json_verifies` and the scalar class `JsonClass` are referred to elsewhere. -/
 theorem render_parse_json_partial (c : CryptoOps) (st : Calc) (o : Obj) (h : JsonClass st o) :
     jsonParse (jsonHookObj c st o).2 =
       .entry ⟨conv o, (st.step c (conv o)).2.1, (st.step c (conv o)).2.2, jIsEnd o⟩ := by
@@ -371,6 +375,75 @@ theorem honest_json_verifies (c : CryptoOps) (key : Bytes) (items : List JItem)
       obtain ⟨h1, h2⟩ := hh
       simp only [produceJson, List.map_cons, produce, toPItemJ]
       rw [render_parse_json_partial c st it.fields h1]
+      congr 1
+      exact ih _ h2
+  have hent : ∀ es : List Entry, entriesOf (es.map Line.entry) = es := by
+    intro es; induction es with
+    | nil => rfl
+    | cons e r ih => simp [entriesOf, ih]
+  apply honest_verifies c key (items.map toPItemJ)
+  · intro it hit
+    obtain ⟨l, hl, rfl⟩ := List.mem_map.mp hit
+    exact hres l hl
+  · intro l hl
+    rw [hmap items _ hcls] at hl
+    obtain ⟨e, _, rfl⟩ := List.mem_map.mp hl
+    simp
+  · rw [hmap items _ hcls, hent]
+
+/-! #### JSON with nested values (arrays and objects as field values, to any depth) -/
+
+/-- the class of `render_parse_json`: like `JsonClass`, with field values that may be arrays and objects nested to any
+depth (`GoodObj`: valid UTF-8 keys; values: strings of valid UTF-8, number literals – readable also as array elements –,
+booleans, `null`, arrays of such values, key-sorted objects of such values). The two registered known findings stay
+excluded. -/
+structure JsonClassN (st : Calc) (o : Obj) : Prop where
+  canonical : Canonical o
+  good : GoodObj o
+  noIntegrity : intKeyB ∉ keysOf o
+  noChainAtStart : st.prev.isNone = true → chainKeyB ∉ keysOf o
+  noChainNew : getKey chainKeyB o ≠ some (.str newValB)
+
+/-- **`unmarshalLogEntry ∘ json.Marshal = id` for nested values** – the hypothesis of `render_parse_json_of_roundtrip`,
+now proved for arrays and objects as values (by recursion over the value; the decoder's fuel, the length of the line,
+always suffices). -/
+theorem decode_marshal_nested (o : Obj) (hc : Canonical o) (hg : GoodObj o) :
+    decodeTop (marshal (.obj o)) = some (some o) :=
+  decodeTop_marshal_nested o hc hg
+
+/-- **Render/parse for the JSON format, nested values included.** For every decoded formatter output whose values are
+strings, number literals, booleans, `null`, or arrays/objects of such values nested to any depth, and whose keys do not
+collide with the hook's own keys, the line the hook writes is parsed back into exactly the bytes the hook authenticated,
+the tag and the chain markers. (This removes the `_partial` of `render_parse_json_partial`: what stays outside is the
+encoder's nesting limit of 10000 and values logrus itself could not encode.) -/
+theorem render_parse_json (c : CryptoOps) (st : Calc) (o : Obj) (h : JsonClassN st o) :
+    jsonParse (jsonHookObj c st o).2 =
+      .entry ⟨conv o, (st.step c (conv o)).2.1, (st.step c (conv o)).2.2, jIsEnd o⟩ := by
+  obtain ⟨hc, hg⟩ := hookMap_classN c st o h.canonical h.good
+  exact render_parse_json_of_roundtrip c st o h.noIntegrity h.noChainAtStart h.noChainNew
+    (decodeTop_marshal_nested _ hc hg)
+
+/-- every entry of a history is in the nested class, in the calculator state it is written in -/
+def JsonHonestN (c : CryptoOps) (key : Bytes) : Calc → List JItem → Prop
+  | _, [] => True
+  | st, it :: r => JsonClassN st it.fields ∧
+    JsonHonestN c key (if it.resetAfter then Calc.new c key else (st.step c (conv it.fields)).1) r
+
+/-- **Honest JSON logs verify, nested field values included.** -/
+theorem honest_json_verifies_nested (c : CryptoOps) (key : Bytes) (items : List JItem)
+    (hcls : JsonHonestN c key (Calc.new c key) items)
+    (hres : ∀ it ∈ items, it.resetAfter = true → jIsEnd it.fields = true) :
+    verify c key ((produceJson c key (Calc.new c key) items).map jsonParse) = .ok := by
+  have hmap : ∀ (its : List JItem) (st : Calc), JsonHonestN c key st its →
+      (produceJson c key st its).map jsonParse = (produce c key st (its.map toPItemJ)).map Line.entry := by
+    intro its
+    induction its with
+    | nil => intro st _; rfl
+    | cons it r ih =>
+      intro st hh
+      obtain ⟨h1, h2⟩ := hh
+      simp only [produceJson, List.map_cons, produce, toPItemJ]
+      rw [render_parse_json c st it.fields h1]
       congr 1
       exact ih _ h2
   have hent : ∀ es : List Entry, entriesOf (es.map Line.entry) = es := by
@@ -1297,5 +1370,74 @@ example : verifyFiles toyOps [7] (parseLine .last false) [fileOf [strB "x", strB
     verify toyOps [7] ([strB "x", strB "y", strB "z"].map (parseLine .last false)) :=
   files_verdict_is_lines_verdict toyOps [7] _ [([strB "x", strB "y"], false), ([strB "z"], true)]
     (by decide) (by decide)
+
+/-! ### non-vacuity of the nested JSON theorems -/
+
+/-- `{"ids":[1,-2.5,"a\n",[true,null],{"k":[]}],"msg":"m","o":{"a":{"b":"x"},"n":0}}` – arrays in arrays, objects in arrays,
+objects in objects, empty array, numbers as array elements -/
+def nestedFields : Obj :=
+  [(strB "ids", .arr [.num (strB "1"), .num (strB "-2.5"), .str (strB "a\n"), .arr [.bool true, .null], .obj [(strB "k", .arr [])]]),
+   (strB "msg", .str (strB "m")),
+   (strB "o", .obj [(strB "a", .obj [(strB "b", .str (strB "x"))]), (strB "n", .num (strB "0"))])]
+
+theorem nested_good : GoodObj nestedFields := by
+  have va : ∀ s : String, (∀ x ∈ strB s, x.toNat < 0x80) → ValidUtf8 (strB s) := fun s h => validUtf8_ascii _ h
+  have n1 : NumLitV (strB "1") := (numLitV_int [0x31] (by decide) (by decide) (by decide)).1
+  have n0 : NumLitV (strB "0") := (numLitV_int [0x30] (by decide) (by decide) (by decide)).1
+  have n25 : NumLitV (strB "-2.5") := (numLitV_frac [0x32] [0x35] (by decide) (by decide) (by decide) (by decide) (by decide)).2
+  intro kv hkv
+  simp only [nestedFields, List.mem_cons, List.mem_nil_iff, or_false] at hkv
+  rcases hkv with rfl | rfl | rfl
+  · refine ⟨va _ (by decide), .arr _ ?_⟩
+    intro x hx
+    simp only [List.mem_cons, List.mem_nil_iff, or_false] at hx
+    rcases hx with rfl | rfl | rfl | rfl | rfl
+    · exact .scalar _ (.num _ n1)
+    · exact .scalar _ (.num _ n25)
+    · exact .scalar _ (.str _ (va _ (by decide)))
+    · refine .arr _ ?_
+      intro y hy
+      simp only [List.mem_cons, List.mem_nil_iff, or_false] at hy
+      rcases hy with rfl | rfl
+      · exact .scalar _ (.bool true)
+      · exact .scalar _ .null
+    · refine .obj _ (by simp [Canonical]) ?_ ?_
+      · intro kv h; simp at h; subst h; exact va _ (by decide)
+      · intro kv h; simp at h; subst h; exact .arr _ (by intro z hz; cases hz)
+  · exact ⟨va _ (by decide), .scalar _ (.str _ (va _ (by decide)))⟩
+  · refine ⟨va _ (by decide), .obj _ ?_ ?_ ?_⟩
+    · unfold Canonical
+      simp only [List.pairwise_cons]
+      decide
+    · intro kv h
+      simp only [List.mem_cons, List.mem_nil_iff, or_false] at h
+      rcases h with rfl | rfl <;> exact va _ (by decide)
+    · intro kv h
+      simp only [List.mem_cons, List.mem_nil_iff, or_false] at h
+      rcases h with rfl | rfl
+      · refine .obj _ (by simp [Canonical]) ?_ ?_
+        · intro kv h; simp at h; subst h; exact va _ (by decide)
+        · intro kv h; simp at h; subst h; exact .scalar _ (.str _ (va _ (by decide)))
+      · exact .scalar _ (.num _ n0)
+
+theorem nested_class (st : Calc) : JsonClassN st nestedFields where
+  canonical := by
+    unfold Canonical nestedFields
+    simp only [List.pairwise_cons]
+    decide
+  good := nested_good
+  noIntegrity := by decide
+  noChainAtStart := fun _ => by decide
+  noChainNew := by
+    rw [(getKey_none_iff _ _).mpr (by decide)]
+    simp
+
+/-- `honest_json_verifies_nested` on a history of two such entries -/
+example : verify toyOps [7] ((produceJson toyOps [7] (Calc.new toyOps [7])
+    [⟨nestedFields, false⟩, ⟨nestedFields, false⟩]).map jsonParse) = .ok :=
+  honest_json_verifies_nested toyOps [7] _ ⟨nested_class _, nested_class _, trivial⟩ (by
+    intro it h
+    simp at h
+    rcases h with rfl | rfl <;> (intro h; cases h))
 
 end AcraModel.Props.C20
